@@ -50,6 +50,8 @@ func (i *Inbox) Normalize(normalizers tax.Normalizers) {
 	// so that normalising the result once more changes nothing
 	i.moveCodeToEmailOrURL()
 	normalizers.Each(i)
+	// ... and once more for what an add-on's normaliser left in the code
+	i.moveCodeToEmailOrURL()
 }
 
 func (i *Inbox) moveCodeToEmailOrURL() {
